@@ -21,7 +21,7 @@ import (
 
 // all target/option combinations exercised
 var genTargets = []string{
-	"go", "go:slim", "go:async", "go:package_prefix=pre/fix", "go:suppress_deprecated_logging", "go:omit_server_service_generation", "go:slim,async", "go:frugal_import=" + altFrugalImport,
+	"go", "go:slim", "go:async", "go:package_prefix=pre/fix", "go:suppress_deprecated_logging", "go:omit_server_service_generation", "go:slim,async", "go:frugal_import=" + altFrugalImport, "go:use_vendor", "java:use_vendor", "dart:use_vendor",
 	"java", "java:async", "java:boxed_primitives", "java:default_unsupported", "java:generated_annotations=undated", "java:generated_annotations=suppress", "java:async,boxed_primitives",
 	"dart", "dart:use_enums", "dart:use_int64", "dart:use_null_for_unset", "dart:library_prefix=my_lib.src", "dart:use_enums,use_int64,use_null_for_unset",
 	"py", "py:asyncio", "py:tornado", "py:package_prefix=pre.fix.",
